@@ -410,7 +410,10 @@ def unpem(pem):
             if l and not l.startswith(b("-----"))
         ]
     )
-    return base64.b64decode(d)
+    try:
+        return base64.b64decode(d)
+    except (binascii.Error, TypeError) as e:
+        raise UnexpectedDER("Malformed base64 encoding of PEM body: %s" % e)
 
 
 def topem(der, name):
